@@ -129,6 +129,9 @@ class _Eval:
                 if s["k"] == "assign" and s["rv"]["k"] == "binop":
                     add_const(s["rv"]["a"])
                     add_const(s["rv"]["b"])
+                if s["k"] == "assign" and s["rv"]["k"] == "agg" and s["rv"].get("agg") == "array":
+                    for o in s["rv"]["ops"]:
+                        add_const(o)
             t = blk["t"]
             if t["k"] == "switch":
                 for v, _ in t["targets"]:
@@ -273,10 +276,14 @@ class _Eval:
                     a = self.read_op(env, rv["op"])
                     if a[0] == "cell" and rv["cast"] == "IntToInt" and rv["ty"] in ("char", "u32", "u64", "usize", "u16"):
                         env[dst] = a   # widening keeps the numeric value
+                    elif rv["cast"].startswith("PointerCoercion") and (a[0] == "set" or (a[0] == "ref" and a[1][0] == "set")):
+                        env[dst] = a   # &[T; N] -> &[T]
                     else:
                         raise Opaque("cast of %s to %s" % (a[0], rv["ty"]))
                 elif k == "agg" and rv["agg"] == "tuple":
                     env[dst] = ("tuple", {i: self.read_op(env, o) for i, o in enumerate(rv["ops"])})
+                elif k == "agg" and rv["agg"] == "array" and all(self.read_op(env, o)[0] == "int" for o in rv["ops"]):
+                    env[dst] = ("set", frozenset(self.read_op(env, o)[1] for o in rv["ops"]))      # `['a', 'b'].contains(&c)`
                 else:
                     raise Opaque("rvalue %s" % k)
             t = blk["t"]
@@ -315,7 +322,17 @@ class _Eval:
                 dst = t["dest"]
                 if dst["p"]:
                     raise Opaque("call result written through projection")
-                if n in CLASSIFIERS:
+                def _deref(v):
+                    while v[0] == "ref":
+                        v = v[1]
+                    return v
+                if n.endswith("<impl [T]>::contains") and len(args) == 2 and _deref(args[0])[0] == "set" and _deref(args[1])[0] == "cell":
+                    members = _deref(args[0])[1]
+                    inside = [m for m in members if lo <= m <= hi]
+                    if inside and lo != hi:
+                        raise Opaque("cell straddles an array constant")
+                    env[dst["l"]] = ("bool", bool(inside))
+                elif n in CLASSIFIERS:
                     a = args[0]
                     while a[0] == "ref":
                         a = a[1]
